@@ -19,6 +19,10 @@ samples = []
 counters = {}
 MAX_SAMPLES = 3
 MAX_FAILURES = 5
+# the cases explored just before a failing one in the same worker process: a failure that needs them to reproduce depends on
+# process history (caches, shared objects) and is replayed with them
+HISTORY = 12
+_recent = []
 
 
 def reset():
@@ -51,7 +55,10 @@ def record(case, ok, nontrivial_key=None, detail=None, fingerprint=None):
     if not ok:
         n_fp = sum(1 for f in failures if f["fingerprint"] == fingerprint)
         if (len(failures) < MAX_FAILURES and n_fp < 2) or (n_fp == 0 and len(failures) < 4 * MAX_FAILURES):
-            failures.append({"case": case, "detail": detail, "fingerprint": fingerprint})
+            failures.append({"case": case, "detail": detail, "fingerprint": fingerprint, "history": list(_recent)})
+    _recent.append(case)
+    if len(_recent) > HISTORY:
+        del _recent[0]
 
 
 _known = None
@@ -62,7 +69,7 @@ def is_known(fingerprint):
     global _known
     if _known is None:
         try:
-            with open("/verif/known_findings.json") as f:
+            with open(os.path.join(os.path.dirname(os.path.dirname(os.path.abspath(__file__))), "known_findings.json")) as f:
                 _known = set(x["fingerprint"] for x in json.load(f).get("findings", []) if x.get("status") == "known")
         except OSError:
             _known = set()
